@@ -62,8 +62,25 @@ fn child_doc(kind: usize, ticks: usize) -> String {
     )
 }
 
-fn node_doc(child_kind: usize, ticks: usize, autoforward: bool, pause_us: u64) -> String {
+/// Writes the child document to a file named after its content (several workers may do so at
+/// once: write to a private name, then rename) and returns the absolute path.
+fn child_file(doc: &str) -> String {
+    let dir = std::path::Path::new(&std::env::var("VERIF_DIR").unwrap_or_else(|_| "/verif".into())).join("work").join("c17kids");
+    let _ = std::fs::create_dir_all(&dir);
+    let path = dir.join(format!("{:016x}.scxml", crate::engine::hash_str(doc)));
+    if !path.exists() {
+        let tmp = dir.join(format!("{:016x}.{}.tmp", crate::engine::hash_str(doc), std::process::id()));
+        let _ = std::fs::write(&tmp, doc);
+        let _ = std::fs::rename(&tmp, &path);
+    }
+    path.to_string_lossy().to_string()
+}
+
+fn node_doc(child_kind: usize, ticks: usize, autoforward: bool, pause_us: u64, from_file: bool) -> String {
     let child = child_doc(child_kind, ticks);
+    // file-based invoke: <invoke src="..."> takes another path through Fsm::invoke (the document is
+    // loaded and parsed on the session thread)
+    let (src_attr, child) = if from_file { (format!(" src=\"{}\"", child_file(&child)), String::new()) } else { (String::new(), format!("<content>{}</content>", child)) };
     format!(
         r##"<scxml xmlns="http://www.w3.org/2005/07/scxml" version="1.0" name="node" datamodel="rfsm-expression">
   <datamodel><data id="got" expr="0"/></datamodel>
@@ -73,8 +90,8 @@ fn node_doc(child_kind: usize, ticks: usize, autoforward: bool, pause_us: u64) -
         <transition event="inv" target="busy"/>
       </state>
       <state id="busy">
-        <invoke type="scxml" id="kid" autoforward="{af}">
-          <content>{child}</content>
+        <invoke type="scxml" id="kid" autoforward="{af}"{src}>
+          {child}
           <finalize><assign location="got" expr="got + 1"/></finalize>
         </invoke>
         <transition event="leave" target="idle"/>
@@ -104,6 +121,7 @@ fn node_doc(child_kind: usize, ticks: usize, autoforward: bool, pause_us: u64) -
 </scxml>"##,
         af = if autoforward { "true" } else { "false" },
         child = child,
+        src = src_attr,
         pause = pause_us
     )
 }
@@ -146,6 +164,7 @@ pub struct Scenario {
     child_kind: usize,
     ticks: usize,
     autoforward: bool,
+    from_file: bool,
     pause_us: u64,
     jitter: u64,
     steer: Option<(usize, usize, u64)>,
@@ -194,7 +213,9 @@ fn decode(tape: &[u8]) -> Scenario {
     }
     // final phase: FsmExecutor::shutdown() on one thread while another makes the sessions send
     let shutdown = if t.chance(35) { Some((0..(3 + t.below(12))).map(|_| if t.bool() { Op::Tx(t.below(8), t.below(8)) } else { Op::TxDelayed(t.below(8), t.below(8), 1 + t.below(3) as u32) }).collect::<Vec<Op>>()) } else { None };
-    Scenario { initial, threads, child_kind, ticks, autoforward, pause_us, jitter, steer, shutdown }
+    // read last: earlier replay tapes keep their meaning
+    let from_file = t.chance(35);
+    Scenario { initial, threads, child_kind, ticks, autoforward, from_file, pause_us, jitter, steer, shutdown }
 }
 
 struct Node {
@@ -373,7 +394,7 @@ impl Check for C17 {
         "C17"
     }
     fn rule(&self) -> String {
-        "scenarios of 2-4 initial + concurrently started sessions of one executor driven by 2-6 host threads (released by a barrier) with 4-31 operations each: start a session, make session a send to session b (immediately / delayed 1-6 ms together with a delayed self-send), make a session invoke an inline child (finishing at once / ticking with delayed sends then finishing / ticking then waiting / echoing; optional autoforward; finalize), leave the invoking state (cancels the child), send to the child, FsmExecutor::send_to_session from the host, cancel a session; finally (35 %) FsmExecutor::shutdown on one thread while another makes the sessions send; then all sessions are cancelled. \
+        "scenarios of 2-4 initial + concurrently started sessions of one executor driven by 2-6 host threads (released by a barrier) with 4-31 operations each: start a session, make session a send to session b (immediately / delayed 1-6 ms together with a delayed self-send), make a session invoke a child, inline <content> or (35 %) src=file (finishing at once / ticking with delayed sends then finishing / ticking then waiting / echoing; optional autoforward; finalize), leave the invoking state (cancels the child), send to the child, FsmExecutor::send_to_session from the host, cancel a session; finally (35 %) FsmExecutor::shutdown on one thread while another makes the sessions send; then all sessions are cancelled. \
          Schedules: OS scheduler + generated sleeps + a generated pause inside macrosteps + seeded jitter before lock acquisitions (75 % of the cases) + steering (65 %): a thread that holds a lock of class A and requests one of class B sleeps 0.3/1/3 ms first, (A,B) generated over executor-state, I/O-processor, global-data, data-value. \
          Oracle: every host thread finishes and every session thread (including invoked children; read from /proc/self/task) ends within the time limit; when not, the wait-for cycle recorded by the instrumented mutex (owner/waiter tables at blocking time) is the proof of the deadlock; a recorded cycle is a violation even when it is noticed before the stall. A stall without a recorded cycle is inconclusive. \
          Non-trivial = at least two threads requested a lock while holding another one and at least two different (held class -> requested class) pairs were observed, and the scenario executed at least 3 kinds of operations; distinct = hash of the scenario (operation lists, steering, jitter seed) and the observed class-level lock-order edges."
@@ -413,13 +434,16 @@ impl Check for C17 {
             Some((f, t, us)) => rufsm::verif_sync::set_edge_delay(LOCK_CLASSES[f], LOCK_CLASSES[t], us),
             None => rufsm::verif_sync::set_edge_delay("", "", 0),
         }
-        let exec = FsmExecutor::new_without_io_processor();
+        #[allow(unused_mut)]
+        let mut exec = FsmExecutor::new_without_io_processor();
+        // the reader strips leading '/' from a src path and resolves it against the include paths
+        exec.include_paths.push(std::path::PathBuf::from("/"));
         let world = Arc::new(World {
             exec,
             log: Arc::new(MarkLog::default()),
             nodes: Mutex::new(Vec::new()),
             sessions: Mutex::new(Vec::new()),
-            xml: node_doc(sc.child_kind, sc.ticks, sc.autoforward, sc.pause_us),
+            xml: node_doc(sc.child_kind, sc.ticks, sc.autoforward, sc.pause_us, sc.from_file),
             progress: Default::default(),
         });
         let cleanup = || {
@@ -448,11 +472,12 @@ impl Check for C17 {
         }
         let describe = |sc: &Scenario| {
             format!(
-                "initial {}, child kind {} ticks {} autoforward {}, pause {} us, jitter {}, steer {:?}, shutdown during {:?}, threads {:?}",
+                "initial {}, child kind {} ticks {} autoforward {} from_file {}, pause {} us, jitter {}, steer {:?}, shutdown during {:?}, threads {:?}",
                 sc.initial,
                 sc.child_kind,
                 sc.ticks,
                 sc.autoforward,
+                sc.from_file,
                 sc.pause_us,
                 sc.jitter,
                 sc.steer.map(|(f, t, us)| format!("{}->{} {}us", LOCK_CLASSES[f], LOCK_CLASSES[t], us)),
@@ -607,6 +632,9 @@ impl Check for C17 {
         let count = |tag: &str| log.iter().filter(|m| m.tag == tag).count();
         if count("kid.start") > 0 {
             r.classes.push("child_started".into());
+            if sc.from_file {
+                r.classes.push("child_started_from_file".into());
+            }
         }
         if count("kid.done") > 0 {
             r.classes.push("child_done".into());
